@@ -9,8 +9,72 @@ NOTE = ("Trusted base: Coq 8.16.1 kernel; hand-written Gallina model tied to /re
         "run on every invocation (extracted model via ExtrOcamlBasic only, no Extract Constant; Rust harness "
         "with path dependencies on /repo/tough and /repo/olpc-cjson); no axioms declared; see DESIGN.md section 2.")
 
+CLIENT = ("Gallina model of the update workflow (load_root ... load_delegations, Datastore) over abstract documents with "
+          "symbolic signatures; tied to the code on every run by concretising generated scenarios into really signed "
+          "repositories, running RepositoryLoader::load over a scripted in-memory transport and a real datastore directory, "
+          "and comparing result class, trusted versions, request log and datastore summary with the extracted model; an "
+          "independent Python oracle states the property on the implementation's own results. ")
+MODELLED = (" Modelled not verified: serde/serde_json parsing of metadata (a served file is abstracted by the harness that built "
+            "it), real signature schemes (symbolic), SHA-256 (digest identities), Url::join, tokio/reqwest.")
+
 CHECKS = {
     # pid: (technique, level text, level note, design ref)
+    "C01": ("Coq proof: threshold loop = cardinality of the set of distinct authorised valid signers (sound and complete), "
+            "no-credit lemmas; differential correspondence over 8 verification sites",
+            CLIENT + "Theorems: verify_role accepts iff >= threshold distinct authorised keys present in the key table have a "
+            "valid signature, for all tables/lists/thresholds; top-level sites of a successful cycle verified under the final "
+            "root (C02_final_root_only). Partial: the per-site statement for delegated roles is checked by correspondence "
+            "(signature lists of all 8 kinds at depth 1 and 2), not yet proved for the recursive loader.",
+            NOTE + MODELLED, "5/C01"),
+    "C02": ("Coq proof of the chain/stop/forward-only properties of the root walk by induction on the walk; differential "
+            "correspondence over chains with every kind of broken hop",
+            CLIENT + "Theorems: a successful cycle's root is reached from the shipped root through hops each verified under the "
+            "previous and under its own root keys with strictly increasing versions; the walk's requests are consecutive and "
+            "stop at the first unavailable version; a shipped root that fails self-verification is refused before any request; "
+            "timestamp, snapshot and targets verify under the final root.", NOTE + MODELLED, "5/C02"),
+    "C03": ("Coq proof by invariant over arbitrary histories of cycles (induction on the history, frame lemmas per step); "
+            "differential correspondence over 2-4 cycle histories with an independent oracle",
+            CLIENT + "Theorems for all histories, all datastores, all faults: versions of timestamp/snapshot/listed-targets "
+            "(resp. targets) never decrease between two successful cycles unless some cycle in between ended its root walk "
+            "with a root that authorises the online roles (resp. targets) differently; pre-repair statement refuted (F5). "
+            "Known finding: root withholding (see known_findings.txt). Partial: the no-lock-out clause is checked by the "
+            "oracle on generated histories, not yet proved.", NOTE + MODELLED, "5/C03"),
+    "C04": ("Coq proofs about the expiry/clock checks of the cycle and of read_target; correspondence with the clock moved "
+            "through the verif-hooks offset",
+            CLIENT + "Theorems: success under enforcement implies the final root, timestamp, snapshot and targets are unexpired; "
+            "a clock earlier than the recorded time makes cycle and read fail; with enforcement off no failure has a time "
+            "cause (all code variants); expiry is only reported for expired documents; read_target succeeds only strictly "
+            "before the earliest of the four expirations.",
+            NOTE + MODELLED + " One clock sample per operation in the model.", "5/C04"),
+    "C05": ("Coq proof that each accepted file is the one served under the pinned name with the pinned version, digest and "
+            "length bound; differential correspondence over all cross-combinations of three repository states",
+            CLIENT + "Theorems: snapshot and targets of a successful cycle have exactly the listed version, the listed digest when "
+            "listed, a length within the listed length or configured limit, and were requested under the version-prefixed name "
+            "under consistent snapshots. Partial: the same facts for delegated roles are checked by correspondence and oracle "
+            "(81 combinations x pins x variants), not yet proved for the recursive loader.", NOTE + MODELLED, "5/C05"),
+    "C06": ("Coq proofs about max_size_adapter/DigestAdapter/consumer as list transformers, for all streams; end-to-end "
+            "correspondence through Repository::read_target",
+            "Theorems for every stream (every chunking, every prefix of an endless stream): a stream that ends without error "
+            "delivered bytes hashing to the signed digest, never more than the signed length reaches the caller, the signed "
+            "content is delivered in any chunking, anything else ends in an error; read_target yields not-found without an "
+            "authorised entry and requests the digest-prefixed file under consistent snapshots. Tied to the code by reading "
+            "real targets (0-64 KiB, corrupted in 6 ways) through the scripted transport.",
+            NOTE + " SHA-256 uninterpreted (H); limits below 2^64-1.", "5/C06"),
+    "C08": ("Coq proofs about clean_name, the path check and the file-system step list; exhaustive/random correspondence for "
+            "names, end-to-end save_target runs with directory listings and an in-transfer observer",
+            "Theorems: accepted names resolve to non-empty sequences of normal components; a destination that passes the check "
+            "is strictly inside outdir and made of normal components (both prefix modes); after any prefix of the save steps "
+            "the files are untouched or (only at the end, only if the verified stream ended without error) differ by dest := "
+            "received bytes; no other path is touched. Tied to the code by TargetName::new on all names to length 4/5 over the "
+            "property's alphabet and by real saves into a sentinel directory (listing after, observation during).",
+            NOTE + " rename(2) atomicity, absence of symlinks and NamedTempFile clean-up are observed, not proved.", "5/C08"),
+    "C09": ("Coq proofs of the byte bound of every accepted file and of the newer-root request bound; correspondence over "
+            "limit settings, endless streams, long chains, cyclic and DAG delegations (risky cases one per process)",
+            CLIENT + "Theorems: a fetch succeeds only within its limit and with the expected digest, a size refusal only hits "
+            "streams that exceed the limit; at most max_root_updates newer roots are requested for every limit up to 2^64-1 "
+            "(pre-repair overflow refuted). Partial: termination and the request bound of the delegation loader are checked "
+            "by correspondence (self/mutual delegation, DAGs) with the known finding F15; not yet proved.",
+            NOTE + MODELLED, "5/C09"),
     "C11": ("Coq proof that the CanonicalFormatter state machine (driven by serde_json's event sequence) computes the "
             "recursive OLPC specification; order-independence and sortedness theorems; differential correspondence "
             "and independent Python specification oracle",
@@ -21,6 +85,19 @@ CHECKS = {
             "failing input. Partial: the injectivity clause is searched for collisions, not yet proved.",
             NOTE + " Modelled not verified: serde_json's Serializer event order and string splitting, Unicode NFC "
             "(parameter with hypotheses nfc_ok, tested against unicodedata).", "5/C11"),
+    "C14": ("Coq proofs: rotation clears stored timestamp/snapshot, no stored version constrains afterwards, unrotated roles "
+            "keep protecting (C03's invariant); correspondence over inflated versions up to 2^63",
+            CLIENT + "Theorems: when the walk ends with a root whose timestamp or snapshot key list differs from the previously "
+            "trusted root's, both stored files are gone before step 2 and no 'older metadata' refusal can follow from stored "
+            "timestamp/snapshot; otherwise C03's monotonicity holds.", NOTE + MODELLED, "5/C14"),
+    "C15": ("Coq proof: C03's invariant with an arbitrary fault (kill before/in/after, failed write) on any datastore write of "
+            "any cycle; real processes with strace SIGKILL/ENOSPC injection at every datastore system call",
+            "Theorems: rollback protection for all histories with all fault positions and kinds; a write is all-or-nothing "
+            "with write-to-temporary-and-rename; truncate-and-write refuted (F9). Tied to the code by running the client in "
+            "real processes under strace, killing it at every write/rename/unlink or failing the call with ENOSPC, then "
+            "loading replayed-older and current repositories on copies of the datastore, and comparing with the model run on "
+            "the matching (operation, fault). Partial: 'never locked out after a fault' is checked by these runs, not proved.",
+            NOTE + " Process death only (page cache survives); rename(2) atomicity assumed.", "5/C15"),
     "C16": ("Coq proof of injectivity/plain-entry of the file-name function + exhaustive/random differential "
             "correspondence with DelegatedTargets::filename",
             "Theorems (all role names, all versions, both consistent-snapshot settings) on the Gallina model of "
